@@ -15,6 +15,13 @@ DEFAULTS = dict(target="gauss2", tkw={}, N=64, n_total=256, kernel="tpcn", resam
                 bc="target")
 
 
+def prog(c):
+    """progress display of run(): as configured, otherwise on for every other seed (the library's default is on)."""
+    if c.get("progress") is not None:
+        return bool(c["progress"])
+    return bool(int(c.get("seed", 0) or 0) % 2)
+
+
 def full(cfg):
     c = dict(DEFAULTS)
     c.update(cfg)
